@@ -132,6 +132,48 @@ def merge_result(merged, key, r):
         m['path_samples'] += r['path_samples'][:4]
 
 
+def run_kani(pid):
+    """second engine for the scalar modules: Kani/CBMC on the same definitional assertions (kani/src/lib.rs), against the
+    same tree.  Returns dict harness -> 'SUCCESSFUL' | 'FAILED' | ..., plus wall time; {} if pid has no Kani harness."""
+    if pid not in ('C15', 'C20'):
+        return None
+    t0 = time.time()
+    work = tempfile.mkdtemp(prefix='verif-kani-')
+    try:
+        shutil.copytree(os.path.join(VERIF, 'kani', 'src'), os.path.join(work, 'src'))
+        with open(os.path.join(work, 'Cargo.toml'), 'w') as f:
+            f.write('[package]\nname = "verif-kani"\nversion = "0.1.0"\nedition = "2021"\n\n[dependencies]\n'
+                    'aws-smt-strings = { path = "%s" }\n\n[workspace]\n' % build.REPO)
+        lock = os.path.join(build.REPO, 'Cargo.lock')
+        if os.path.exists(lock):
+            shutil.copy(lock, os.path.join(work, 'Cargo.lock'))
+        env = dict(os.environ)
+        env['CARGO_NET_OFFLINE'] = 'true'
+        env.pop('RUSTFLAGS', None)
+        with build.Lock('kani'):
+            try:
+                r = subprocess.run(['cargo', 'kani', '--target-dir', os.path.join(build.CACHE, 'kani-target')], cwd=work, env=env,
+                                   capture_output=True, text=True, timeout=900)
+                out = r.stdout + r.stderr
+            except subprocess.TimeoutExpired:
+                return {'error': 'kani timeout', 'wall_s': round(time.time() - t0, 1), 'harnesses': {}}
+        res = {}
+        cur = None
+        for line in out.split('\n'):
+            m = re.match(r'Checking harness proofs::(\w+)', line)
+            if m:
+                cur = m.group(1)
+            m = re.match(r'VERIFICATION:- (\w+)', line)
+            if m and cur:
+                res[cur] = m.group(1)
+                cur = None
+        pre = pid.lower() + '_'
+        res = {k: v for k, v in res.items() if k.startswith(pre)}
+        return {'harnesses': res, 'wall_s': round(time.time() - t0, 1), 'error': None if res else out[-800:]}
+    finally:
+        shutil.rmtree(work, ignore_errors=True)
+
+
 def native_run(binary, harness, params, inputs, timeout=120):
     try:
         r = subprocess.run([binary, harness, ','.join(map(str, params)), ','.join(map(str, inputs))],
@@ -314,6 +356,17 @@ def main():
             print('  %s %s label=%s params=%s inputs=%s' % (r['harness'], v['what'], r['label'], r['params'], v['inputs']))
             rc = 1
         broken = []
+        kani = run_kani(pid)
+        if kani is not None:
+            spec['kani'] = kani
+            failed = [h for h, v in kani['harnesses'].items() if v != 'SUCCESSFUL']
+            log('kani: %s in %.0fs' % (kani['harnesses'], kani['wall_s']))
+            if kani.get('error') or not kani['harnesses']:
+                broken.append('Kani cross-check did not run: %s' % str(kani.get('error'))[:300])
+            elif failed and not confirmed:
+                broken.append('engines disagree: Kani reports %s FAILED while llsymex found no violation' % failed)
+            elif confirmed and not failed and all(r['harness'].startswith('vh_' + pid.lower() + '_basic') or r['harness'].startswith('vh_c20_charset') for r, v, o in confirmed):
+                print('note: Kani (second engine) does not reproduce the llsymex violation on its harness set')
         if inconclusive:
             broken.append('%d inconclusive instances, e.g. %s %s: %s' % (len(inconclusive), inconclusive[0]['harness'],
                                                                       inconclusive[0]['label'], inconclusive[0]['reason'][:500]))
@@ -403,6 +456,7 @@ def write_evidence(pid, tier, seed, spec, results, validated, nconfirmed, nnew, 
             'counterexamples_reproduced_natively': nconfirmed,
             'known_findings_hit': known_hits,
             'broken': broken,
+            'second_engine_kani': spec.get('kani'),
             'stubs_in_force': STUBS,
             'explanation': 'bounded symbolic execution (llsymex) of rustc-emitted LLVM IR of the crate + std; verdict per assertion by z3/cvc5',
         },
